@@ -120,17 +120,18 @@ theorem tenv_step_decls (e : TyEnv) (i : Instr) (h1 : ∀ v n, i ≠ .fnArg v n)
 
 /-- the environment step touches only the registers the instruction writes (and the alias after
 a call / field read) -/
-theorem reg_cons_ne (e : TyEnv) (ds : List Value) (a q : Nat) (t : Ty) (rest : List (Nat × Ty)) (h : q < a) :
-    ({ regs := (a, t) :: rest, decls := ds } : TyEnv).reg q = ({ regs := rest, decls := ds } : TyEnv).reg q := by
+theorem reg_cons_ne (e : TyEnv) (ds : List Value) (ws : List (Nat × Ty)) (a q : Nat) (t : Ty) (rest : List (Nat × Ty)) (h : q < a) :
+    ({ regs := (a, t) :: rest, decls := ds, written := ws } : TyEnv).reg q = ({ regs := rest, decls := ds, written := ws } : TyEnv).reg q := by
   unfold TyEnv.reg
   have : (a == q) = false := by simp; omega
   simp [List.find?_cons, this]
 
-theorem reg_cons_eq (ds : List Value) (a : Nat) (t : Ty) (rest : List (Nat × Ty)) :
-    ({ regs := (a, t) :: rest, decls := ds } : TyEnv).reg a = some t := by
+theorem reg_cons_eq (ds : List Value) (ws : List (Nat × Ty)) (a : Nat) (t : Ty) (rest : List (Nat × Ty)) :
+    ({ regs := (a, t) :: rest, decls := ds, written := ws } : TyEnv).reg a = some t := by
   unfold TyEnv.reg; simp [List.find?_cons]
 
-theorem reg_decls (e : TyEnv) (ds : List Value) (q : Nat) : ({ e with decls := ds } : TyEnv).reg q = e.reg q := rfl
+theorem reg_of_regs {e e' : TyEnv} (h : e'.regs = e.regs) (q : Nat) : e'.reg q = e.reg q := by
+  unfold TyEnv.reg; rw [h]
 
 theorem tenv_step_stable (e : TyEnv) (i : Instr) (q : Nat) (h : ∀ w, i.writes = some w → q < w) :
     (tyStepEnv e i).reg q = e.reg q := by
@@ -138,11 +139,34 @@ theorem tenv_step_stable (e : TyEnv) (i : Instr) (q : Nat) (h : ∀ w, i.writes 
   all_goals first
     | (have hq := h _ rfl
        first
-         | exact reg_cons_ne e _ _ _ _ _ hq
-         | (rw [reg_cons_ne e _ _ _ _ _ (by omega)]; exact reg_cons_ne e _ _ _ _ _ hq)
+         | (rw [reg_cons_ne e _ _ _ _ _ _ hq]; exact reg_of_regs rfl q)
+         | (rw [reg_cons_ne e _ _ _ _ _ _ (by omega), reg_cons_ne e _ _ _ _ _ _ hq]; exact reg_of_regs rfl q)
          | (split
-            · rw [reg_cons_ne e _ _ _ _ _ (by omega)]; exact reg_cons_ne e _ _ _ _ _ hq
+            · rw [reg_cons_ne e _ _ _ _ _ _ (by omega), reg_cons_ne e _ _ _ _ _ _ hq]; exact reg_of_regs rfl q
             · rfl))
+
+/-- the registers written so far are not above the root's counter -/
+def WLe (s : St) : Prop := ∀ p ∈ s.tenv.written, p.1 ≤ s.root.reg
+
+theorem written_step (e : TyEnv) (i : Instr) : ∀ p ∈ (tyStepEnv e i).written, p ∈ e.written ∨ i.writes = some p.1 := by
+  intro p hp
+  cases i <;> simp only [tyStepEnv, Instr.writes] at hp ⊢ <;> try exact Or.inl hp
+  all_goals first
+    | (simp only [List.mem_cons] at hp
+       rcases hp with rfl | hp
+       · exact Or.inr rfl
+       · exact Or.inl hp)
+    | (split at hp
+       · simp only [List.mem_cons] at hp
+         rcases hp with rfl | hp
+         · exact Or.inr rfl
+         · exact Or.inl hp
+       · exact Or.inl hp)
+
+theorem wle_of_ctx {s s' : St} (hc : s'.root.context = s.root.context) (hr : s.root.reg ≤ s'.root.reg) (h : WLe s) : WLe s' := by
+  intro p hp
+  rw [tenv_of_ctx hc] at hp
+  exact Nat.le_trans (h p hp) hr
 
 /-! ### Registers -/
 
@@ -339,6 +363,20 @@ theorem innerUsed_push (i : Instr) (s : St) (n : Name) : (s.push i).innerUsed n 
 theorem innerUsed_incReg (s : St) (n : Name) : s.incReg.innerUsed n = s.innerUsed n := by
   unfold St.innerUsed St.incReg; rw [frames_mapFrames]; simp [List.any_map, Function.comp_def]
 
+theorem root_reg_incReg {s : St} (hr : RdInv s) : s.incReg.root.reg = s.root.reg + 1 := by
+  show s.cur.reg + 1 = _
+  have : s.cur.reg = s.root.reg := curReg_of_sync hr.sync
+  rw [this]
+
+theorem wOk_fresh {s : St} (hwl : WLe s) (hr : RdInv s) (t : Ty) : s.tenv.wOk s.incReg.curReg t = true := by
+  unfold TyEnv.wOk
+  rw [List.all_eq_true]
+  intro p hp
+  have h1 := hwl p hp
+  have h2 : s.incReg.curReg = s.root.reg + 1 := by rw [curReg_incReg, curReg_of_sync hr.sync]
+  have : p.1 ≠ s.incReg.curReg := by omega
+  simp [this]
+
 structure Trans (g : Globals) (s s' : St) (evs : List DStmt) : Prop where
   out : s'.abs.out = s.abs.out ++ evs
   decls : s'.abs.decls = s.abs.decls
@@ -351,13 +389,14 @@ structure Trans (g : Globals) (s s' : St) (evs : List DStmt) : Prop where
   rd : RdInv s → RdInv s'
   tstable : ∀ q, q ≤ s.curReg → s'.tenv.reg q = s.tenv.reg q
   tdecls : s'.tenv.decls = s.tenv.decls
-  tok : ∀ R, TOK g R s → TOK g R s'
+  tok : ∀ R, RdInv s → WLe s → TOK g R s → TOK g R s'
+  wle : RdInv s → WLe s → WLe s'
   /-- nothing is declared below statement level (C18, value tables) -/
   dts : s'.dts = s.dts
 
 theorem Trans.refl {g : Globals} (s : St) : Trans g s s [] :=
   ⟨by simp, rfl, fun _ _ => rfl, Nat.le_refl _, rfl, fun _ => rfl, rfl, fun _ h => h, fun h => h,
-   fun _ _ => rfl, rfl, fun _ h => h, rfl⟩
+   fun _ _ => rfl, rfl, fun _ _ _ h => h, fun _ h => h, rfl⟩
 
 theorem Trans.trans {g : Globals} {a b c : St} {e1 e2 : List DStmt} (h1 : Trans g a b e1) (h2 : Trans g b c e2) : Trans g a c (e1 ++ e2) :=
   ⟨by rw [h2.out, h1.out, List.append_assoc], by rw [h2.decls, h1.decls],
@@ -365,19 +404,21 @@ theorem Trans.trans {g : Globals} {a b c : St} {e1 e2 : List DStmt} (h1 : Trans 
    Nat.le_trans h1.mono h2.mono, by rw [h2.vals, h1.vals], fun n => by rw [h2.inner, h1.inner],
    by rw [h2.rootNames, h1.rootNames], fun q h => h2.bnd q (h1.bnd q h), fun h => h2.rd (h1.rd h),
    fun q hq => by rw [h2.tstable q (Nat.le_trans hq h1.mono), h1.tstable q hq],
-   by rw [h2.tdecls, h1.tdecls], fun R h => h2.tok R (h1.tok R h), by rw [h2.dts, h1.dts]⟩
+   by rw [h2.tdecls, h1.tdecls], fun R hr hw h => h2.tok R (h1.rd hr) (h1.wle hr hw) (h1.tok R hr hw h),
+   fun hr hw => h2.wle (h1.rd hr) (h1.wle hr hw), by rw [h2.dts, h1.dts]⟩
 
 theorem Held.of_trans {g : Globals} {s s' : St} {evs : List DStmt} {x : ExprResult} (h : Held s x) (t : Trans g s s' evs) : Held s' x :=
   h.mono t.mono t.bnd t.tstable
 
 theorem trans_addErr {g : Globals} (k : ErrKind) (v : Name) (l o : Nat) (s : St) : Trans g s (s.addErr k v l o) [] :=
   ⟨by simp [abs_addErr], rfl, fun _ _ => rfl, Nat.le_refl _, rfl, fun _ => rfl, rfl, fun _ h => h,
-   fun h => rd_addErr h k v l o, fun _ _ => rfl, rfl, fun _ h => h, rfl⟩
+   fun h => rd_addErr h k v l o, fun _ _ => rfl, rfl, fun _ _ _ h => h, fun _ h => h, rfl⟩
 
 theorem trans_incReg {g : Globals} (s : St) : Trans g s s.incReg [] :=
   ⟨by simp [abs_incReg], by rw [abs_incReg], fun _ _ => by rw [abs_incReg], by rw [curReg_incReg]; omega,
    vals_incReg s, innerUsed_incReg s, rfl, fun q h => by rw [abs_incReg]; exact h, rd_incReg,
-   fun _ _ => by rw [tenv_incReg], by rw [tenv_incReg], fun _ h => tok_of_ctx rfl h, dts_incReg s⟩
+   fun _ _ => by rw [tenv_incReg], by rw [tenv_incReg], fun _ _ _ h => tok_of_ctx rfl h,
+   fun hr hw => wle_of_ctx (s := s) rfl (by rw [root_reg_incReg hr]; omega) hw, dts_incReg s⟩
 
 /-- bump the counter, then push an instruction whose abstract step binds only registers above the old counter -/
 theorem declares_none_of {i : Instr} (hnd : (∀ v n, i ≠ .fnArg v n) ∧ (∀ v x, i ≠ .letBinding v x)) : i.declares = none := by
@@ -389,7 +430,8 @@ theorem trans_incPush {g : Globals} (i : Instr) (s : St) (evs : List DStmt)
     (hrd : ∀ q ∈ i.reads, q ≤ s.curReg ∧ s.abs.bound q = true)
     (hw : ∀ w, i.writes = some w → w = s.incReg.curReg)
     (hnd : (∀ v n, i ≠ .fnArg v n) ∧ (∀ v x, i ≠ .letBinding v x))
-    (hty : ∀ R, ∀ b ∈ tyStepBad (cOkOf g) (fOkOf g) R s.tenv i, b.known i = true) : Trans g s (s.incReg.push i) evs :=
+    (hty : ∀ R, RdInv s → WLe s → ∀ b ∈ tyStepBad (cOkOf g) (fOkOf g) R s.tenv i, b.known i = true) :
+    Trans g s (s.incReg.push i) evs :=
   ⟨by rw [abs_push, abs_incReg]; exact hout, by rw [abs_push, abs_incReg]; exact hdecls,
    fun x hx => by
      rw [abs_push, abs_incReg]
@@ -407,7 +449,15 @@ theorem trans_incPush {g : Globals} (i : Instr) (s : St) (evs : List DStmt)
      intro w hw'
      rw [hw w hw', curReg_incReg]; omega,
    by rw [tenv_push, tenv_incReg]; exact tenv_step_decls _ _ hnd.1 hnd.2,
-   fun R h => tok_push i (tok_of_ctx rfl h) (by rw [tenv_incReg]; exact hty R),
+   fun R hr hwl h => tok_push i (tok_of_ctx rfl h) (by rw [tenv_incReg]; exact hty R hr hwl),
+   fun hr hwl => by
+     intro p hp
+     have hroot : (s.incReg.push i).root.reg = s.root.reg + 1 := root_reg_incReg hr
+     rw [hroot]
+     rw [tenv_push, tenv_incReg] at hp
+     rcases written_step _ _ p hp with hp | hp
+     · have := hwl p hp; omega
+     · rw [hw p.1 hp, curReg_incReg, curReg_of_sync hr.sync]; exact Nat.le_refl _,
    by rw [dts_push_plain _ _ (declares_none_of hnd), dts_incReg]⟩
 
 /-! ### Source scope against the value tables -/
@@ -515,7 +565,7 @@ theorem den_evalExt {g : Globals} (ss : SpecSt) (tag : Nat) (ty : PrimTy) : DenS
   · intro q hq; simp [Instr.reads] at hq
   · intro w hw; simp [Instr.writes] at hw; exact hw.symm
   · exact ⟨fun _ _ h => (nomatch h), fun _ _ h => (nomatch h)⟩
-  · intro R b hb; simp [tyStepBad] at hb
+  · intro R hr hwl b hb; simp [tyStepBad, badIf, wOk_fresh hwl hr] at hb
   · rw [abs_push, abs_incReg]
     simp only [abstractStep, AbsSt.res_reg, AbsSt.emit_reg]
     rw [AbsSt.bind_reg, if_pos rfl]
@@ -524,7 +574,7 @@ theorem den_evalExt {g : Globals} (ss : SpecSt) (tag : Nat) (ty : PrimTy) : DenS
   · rw [abs_push, abs_incReg]
     simp [abstractStep, AbsSt.emit_bound, AbsSt.bind_bound]
   · show (s.incReg.push _).tenv.reg _ = _
-    rw [tenv_push]; exact reg_cons_eq _ _ _ _
+    rw [tenv_push]; exact reg_cons_eq _ _ _ _ _
 
 
 /-- the attribute found under a name is the attribute found under its index -/
@@ -568,8 +618,8 @@ theorem den_evalVar {g : Globals} (hn : GNames g) (ref : Bool) (ss : SpecSt) (x 
       · intro q hq; simp [Instr.reads] at hq
       · intro w hw; simp [Instr.writes] at hw; exact hw.symm
       · exact ⟨fun _ _ h => (nomatch h), fun _ _ h => (nomatch h)⟩
-      · intro R b hb
-        simp [tyStepBad, badIf, dscope_declOk hs hv] at hb
+      · intro R hr hwl b hb
+        simp [tyStepBad, badIf, dscope_declOk hs hv, wOk_fresh hwl hr] at hb
       · rw [abs_push, abs_incReg]
         simp only [abstractStep, AbsSt.res_reg]
         rw [AbsSt.bind_reg, if_pos rfl]
@@ -580,7 +630,7 @@ theorem den_evalVar {g : Globals} (hn : GNames g) (ref : Bool) (ss : SpecSt) (x 
       · rw [abs_push, abs_incReg]
         simp [abstractStep, AbsSt.bind_bound]
       · show (s.incReg.push _).tenv.reg _ = _
-        rw [tenv_push]; exact reg_cons_eq _ _ _ _
+        rw [tenv_push]; exact reg_cons_eq _ _ _ _ _
   | none =>
     rw [hv] at hm hl
     dsimp only at hm
@@ -611,8 +661,8 @@ theorem den_evalVar {g : Globals} (hn : GNames g) (ref : Bool) (ss : SpecSt) (x 
       · intro q hq; simp [Instr.reads] at hq
       · intro w hw; simp [Instr.writes] at hw; exact hw.symm
       · exact ⟨fun _ _ h => (nomatch h), fun _ _ h => (nomatch h)⟩
-      · intro R b hb
-        simp [tyStepBad, badIf, cOkOf, hcn, hc] at hb
+      · intro R hr hwl b hb
+        simp [tyStepBad, badIf, cOkOf, hcn, hc, wOk_fresh hwl hr] at hb
       · rw [abs_push, abs_incReg]
         simp only [abstractStep, AbsSt.res_reg]
         rw [AbsSt.bind_reg, if_pos rfl, hcn]
@@ -621,7 +671,7 @@ theorem den_evalVar {g : Globals} (hn : GNames g) (ref : Bool) (ss : SpecSt) (x 
       · rw [abs_push, abs_incReg]
         simp [abstractStep, AbsSt.bind_bound]
       · show (s.incReg.push _).tenv.reg _ = _
-        rw [tenv_push]; exact reg_cons_eq _ _ _ _
+        rw [tenv_push]; exact reg_cons_eq _ _ _ _ _
 
 
 theorem den_evalField {g : Globals} (hn : GNames g) (ref : Bool) (ss : SpecSt) (x a : Name) :
@@ -687,8 +737,8 @@ theorem den_evalField {g : Globals} (hn : GNames g) (ref : Bool) (ss : SpecSt) (
                 · intro q hq; simp [Instr.reads] at hq
                 · intro w hw; simp [Instr.writes] at hw; exact hw.symm
                 · exact ⟨fun _ _ h => (nomatch h), fun _ _ h => (nomatch h)⟩
-                · intro R b hb
-                  simp [tyStepBad, hty, hfty, badIf, dscope_declOk hs hv] at hb
+                · intro R hr hwl b hb
+                  simp [tyStepBad, hty, hfty, badIf, dscope_declOk hs hv, wOk_fresh hwl hr] at hb
               refine ⟨by simpa using t1.trans (trans_incReg _), ?_, ⟨?_, ?_⟩, ?_⟩
               · rw [abs_incReg, abs_push, abs_incReg]
                 simp only [abstractStep, AbsSt.res_reg]
@@ -708,7 +758,7 @@ theorem den_evalField {g : Globals} (hn : GNames g) (ref : Bool) (ss : SpecSt) (
                   rw [curReg_incReg, curReg_push]
                 rw [tenv_incReg, tenv_push, hcc]
                 simp only [tyStepEnv, hfty]
-                exact reg_cons_eq _ _ _ _
+                exact reg_cons_eq _ _ _ _ _
 
 
 /-! ### Pairs and trees -/
@@ -774,9 +824,9 @@ theorem den_pair {g : Globals} {ss : SpecSt} {l r : EvalM} {dl dr : Den} (o : Op
                 · exact h2.regs q hq
               · intro w hw; simp [Instr.writes] at hw; exact hw.symm
               · exact ⟨fun _ _ h => (nomatch h), fun _ _ h => (nomatch h)⟩
-              · intro R b hb
+              · intro R hr hwl b hb
                 have hty' : lv.ty = rv.ty := Classical.not_not.mp hne
-                simp [tyStepBad, badIf, (h1.of_trans t2).operandOk, h2.operandOk, hty'] at hb
+                simp [tyStepBad, badIf, (h1.of_trans t2).operandOk, h2.operandOk, hty', wOk_fresh hwl hr] at hb
             refine ⟨by simpa using (t1.trans t2).trans t3, ?_, ⟨?_, ?_⟩, ?_⟩
             · rw [abs_push, abs_incReg]
               simp only [abstractStep, AbsSt.res_reg]
@@ -786,7 +836,7 @@ theorem den_pair {g : Globals} {ss : SpecSt} {l r : EvalM} {dl dr : Den} (o : Op
             · rw [abs_push, abs_incReg]
               simp [abstractStep, AbsSt.bind_bound]
             · show (s2.incReg.push _).tenv.reg _ = _
-              rw [tenv_push]; exact reg_cons_eq _ _ _ _
+              rw [tenv_push]; exact reg_cons_eq _ _ _ _ _
 
 theorem den_tree {g : Globals} {ss : SpecSt} {γ : Type} (fm : γ → EvalM) (fd : γ → Den) (t : W γ)
     (h : ∀ a ∈ t.atoms, DenSim g ss (fm a) (fd a) ∧ EM (fm a)) :
@@ -918,11 +968,11 @@ theorem den_functionCall {g : Globals} (hn : GNames g) {ss : SpecSt} (f : Name) 
               exact (hheld x hx).regs q hqx
             · intro w hw; simp [Instr.writes] at hw; exact hw.symm
             · exact ⟨fun _ _ h => (nomatch h), fun _ _ h => (nomatch h)⟩
-            · intro R b hb
+            · intro R hr hwl b hb
               have hall : ps.all (operandOk s1.tenv) = true := by
                 rw [List.all_eq_true]; intro x hx; exact (hheld x hx).operandOk
               have hfok : fOkOf g fd = true := by simp [fOkOf, hname, hf]
-              simp only [tyStepBad, badIf, hall, hfok, hzip, if_true, List.nil_append, List.append_nil] at hb
+              simp only [tyStepBad, badIf, hall, hfok, hzip, wOk_fresh hwl hr, if_true, List.nil_append, List.append_nil] at hb
               split at hb
               · cases hb
               · simp at hb; subst hb; rfl
@@ -936,7 +986,7 @@ theorem den_functionCall {g : Globals} (hn : GNames g) {ss : SpecSt} (f : Name) 
             simp only [tyStepEnv]
             injection h1 with h1
             rw [← h1]
-            exact reg_cons_eq _ _ _ _
+            exact reg_cons_eq _ _ _ _ _
 
 theorem den_evalCall {g : Globals} (hn : GNames g) {ss : SpecSt} (f : Name) (l : List (EvalM × Den))
     (h : ∀ x ∈ l, DenSim g ss x.1 x.2 ∧ EM x.1) :
